@@ -121,6 +121,7 @@ def rec(rep, ex: Explorer, cls: str):
     layer = each_item(layer_fam(Kx), not_falsified)
     base = canon_items(heads + [layer])
     n_rows = 0
+    pending_error, skipped_layer = None, False
     for p in paths:
         if p.outcome[0] == "raise":
             # the type assertion on the partition (refused bases never get here)
@@ -156,6 +157,7 @@ def rec(rep, ex: Explorer, cls: str):
             continue  # already reported at the test itself
         env = {"v": None, "f": None}
         kfacts = []
+        unknown = []
         for key, val in p.decisions:
             if key[0] == "sat" and key[1] in roles:
                 env[roles[key[1]]] = val
@@ -166,8 +168,20 @@ def rec(rep, ex: Explorer, cls: str):
             elif key[0] == "sat":
                 raise AnalysisError(f"{site}: decision on an unclassified satisfiability test")
             else:
-                raise AnalysisError(f"{site}: outcome depends on {key!r}")
+                unknown.append((key, val))
         recs = [ev for ev, Q in iter_events(p.events) if ev.kind == "recurse"]
+        if unknown:
+            descends = bool(recs) or (p.outcome[0] == "loopback" and p.outcome[1] == loop_id)
+            if descends and not roles:
+                # something else than the two reachability tests sends the walk to the next layer: this layer never gets to
+                # separate the query's verification from its falsification
+                k0, v0 = unknown[0]
+                rep.violation("Z.tests", site, "layer skipped", "every layer on the way down is asked both reachability tests: the first layer that separates verification from falsification decides",
+                              extracted=f"descends without a test when {show_pred(k0 if v0 else ('not', k0))[:140]}", required="test A∧B and A∧¬B under the accumulated layers", function=site)
+                skipped_layer = True
+                continue
+            pending_error = pending_error or f"{site}: outcome depends on {unknown[0][0]!r}"
+            continue
         if p.outcome[0] == "loopback" and p.outcome[1] == loop_id:
             # the jump back to the head of the layer loop is the continuation with the values carried back
             snapd = p.outcome[2]
@@ -244,6 +258,8 @@ def rec(rep, ex: Explorer, cls: str):
                           extracted=show_items(flat(ss[0][3])) if ss else "no solver", required=show_items(heads + [layer]), function=site)
                 ok_q = isinstance(a[3], ElemV) and a[3].var == QUERY
                 rep.check(ok_q, "Z.decision", f"{site}:{r.node.lineno}", "recursion query", "same query", extracted=repr(a[3]), required="query", function=site)
+    if pending_error and not skipped_layer:
+        raise AnalysisError(pending_error)
     rep.floor("Z decision rows", n_rows, 8)
 
 
